@@ -341,7 +341,7 @@ struct RealOut {
   fault: Option<String>,
 }
 
-fn run_real(kind: Kind, src: &Src, h: &[Call]) -> RealOut {
+fn run_real(kind: Kind, src: &Src, h: &[Call], drop_handle: bool) -> RealOut {
   let n_obs = h.iter().filter(|c| matches!(c, Call::Sub(_) | Call::SubTake(..))).count();
   let log: Arc<Mutex<Vec<(usize, usize, Ev)>>> = Arc::new(Mutex::new(vec![]));
   let step = Arc::new(AtomicUsize::new(0));
@@ -371,16 +371,21 @@ fn run_real(kind: Kind, src: &Src, h: &[Call]) -> RealOut {
       R(ref_count::RefCount<'static, i64>),
       Y(replay::Replay<'static, i64>),
     }
-    let conn = match kind {
+    let mut conn = Some(match kind {
       Kind::Publish => Conn::P(source.publish()),
       Kind::RefCount => Conn::R(source.ref_count()),
       Kind::Replay => Conn::Y(source.replay()),
-    };
-    let observable = || match &conn {
-      Conn::P(p) => p.observable(),
-      Conn::R(p) => p.observable(),
-      Conn::Y(p) => p.observable(),
-    };
+    });
+    fn observable(conn: &Option<Conn>) -> Observable<'static, i64> {
+      match conn.as_ref().expect("the handle is only dropped after the last subscribe") {
+        Conn::P(p) => p.observable(),
+        Conn::R(p) => p.observable(),
+        Conn::Y(p) => p.observable(),
+      }
+    }
+    // ref_count()/replay(): the caller drops the handle (and every Observable obtained from it) once the
+    // last subscriber of the history has subscribed - the subscribers alone keep the sharing alive
+    let last_sub = h.iter().rposition(|c| matches!(c, Call::Sub(_) | Call::SubTake(..)));
     let mut subs: Vec<Option<Subscription<'static>>> = vec![None; n_obs];
     let mut connection: Option<Subscription<'static>> = None;
     for (si, c) in h.iter().enumerate() {
@@ -390,8 +395,8 @@ fn run_real(kind: Kind, src: &Src, h: &[Call]) -> RealOut {
           let (l1, l2, l3) = (log.clone(), log.clone(), log.clone());
           let (s1, s2, s3) = (step.clone(), step.clone(), step.clone());
           let (i, o) = match c {
-            Call::SubTake(i, k) => (*i, observable().take(*k)),
-            Call::Sub(i) => (*i, observable()),
+            Call::SubTake(i, k) => (*i, observable(&conn).take(*k)),
+            Call::Sub(i) => (*i, observable(&conn)),
             _ => unreachable!(),
           };
           subs[i] = Some(o.subscribe(
@@ -406,7 +411,7 @@ fn run_real(kind: Kind, src: &Src, h: &[Call]) -> RealOut {
           }
         }
         Call::Connect | Call::Reconnect => {
-          if let Conn::P(p) = &conn {
+          if let Some(Conn::P(p)) = &conn {
             connection = Some(p.connect());
           }
         }
@@ -428,6 +433,9 @@ fn run_real(kind: Kind, src: &Src, h: &[Call]) -> RealOut {
             }
           }
         }
+      }
+      if drop_handle && kind != Kind::Publish && Some(si) == last_sub {
+        conn = None;
       }
       let n = src_obs.lock().unwrap().iter().filter(|o| o.is_subscribed()).count();
       src_live.lock().unwrap().push(n);
@@ -505,17 +513,21 @@ pub fn check(tier: &str) -> Report {
               return;
             }
             let exp = reference(*kind, src, h);
-            let real = run_real(*kind, src, h);
+            for drop_handle in [false, true] {
+            if drop_handle && *kind == Kind::Publish {
+              continue;
+            }
+            let real = run_real(*kind, src, h, drop_handle);
             runs += 1;
             steps += h.len() as u64;
             let name = format!("{:?}/{}", kind, if *src == Src::Hot { "hot-source" } else { "cold-source" }).to_lowercase();
             let mut add = |class: &str, detail: String| {
-              let e = local.entry(format!("{}/{}", name, class)).or_insert((format!("{} | source {:?} | history: [{}]", detail, src, show(h)), 0));
+              let e = local.entry(format!("{}/{}", name, class)).or_insert((format!("{} | source {:?} | history: [{}]{}", detail, src, show(h), if drop_handle { " | the connectable handle was dropped after the last subscribe" } else { "" }), 0));
               e.1 += 1;
             };
             if let Some(f) = &real.fault {
               add(if f.starts_with("self") { "self-deadlock" } else { "panic" }, f.clone());
-              return;
+              continue;
             }
             if exp.exp.iter().flatten().any(|v| !v.is_empty()) {
               nontriv += 1;
@@ -545,6 +557,7 @@ pub fn check(tier: &str) -> Report {
             }
             if exp.valid_until == h.len() && real.src_total != exp.src_total {
               add("source-subscription-count", format!("the source was subscribed {} time(s), reference {}", real.src_total, exp.src_total));
+            }
             }
           };
           loop {
